@@ -197,27 +197,27 @@ func (w World) Clone() World {
 }
 
 // names used for named slots and values.
-var Names = []string{"a", "b", "c", "d", "alpha", "beta"}
+var Names = []string{"a", "b", "c", "d", "alpha", "beta", "ärger"}
 
 // Subs[:2] are the everyday subtypes; the rest are legal oddities (a case
 // variant of s1, a percent sign, an equals sign) drawn rarely.
 var Subs = []string{"s1", "s2", "s3", "S1", "p%d", "k=v"}
 
 func spellName(n string, sp int) (field, tagName string) {
+	rs := []rune(n)
 	switch sp % 3 {
 	case 0:
-		return strings.ToUpper(n[:1]) + n[1:], ""
+		return strings.ToUpper(string(rs[:1])) + string(rs[1:]), ""
 	case 1:
 		return strings.ToUpper(n), ""
 	}
 	// mixed case through a tag
-	b := []byte(n)
-	for i := range b {
+	for i := range rs {
 		if i%2 == 1 {
-			b[i] = byte(strings.ToUpper(string(b[i]))[0])
+			rs[i] = []rune(strings.ToUpper(string(rs[i])))[0]
 		}
 	}
-	return "", string(b)
+	return "", string(rs)
 }
 
 func (p Party) String() string {
